@@ -122,7 +122,7 @@ func parseGuarded(src string, limit time.Duration) parseRes {
 var lexFrags = []string{
 	"a", "b1", "_x", "if", "else", "for", "func", "return", "var", "in", "nil", "true", "module", "try", "catch", "switch", "case",
 	"default", "go", "defer", "chan", "struct", "make", "type", "len", "delete", "close", "map", "import", "new", "throw", "break", "continue", "finally", "false",
-	"0", "1", "12", "0x1F", "0X", "0b101", "0b2", "1.5", "1e3", "1e+3", "1E-2", "1ee", "1e", "1.", "1..2", "1a", "0xg", "9_",
+	"0", "1", "12", "0x1F", "0xe", "0xfe", "0x1e", "0xE", "0Xe", "0b1", "1e2", "1.5e", "0X", "0b101", "0b2", "1.5", "1e3", "1e+3", "1E-2", "1ee", "1e", "1.", "1..2", "1a", "0xg", "9_",
 	"\"s\"", "\"a\\nb\"", "\"\\\"\"", "'c'", "'\\''", "`raw`", "`ra\nw`", "\"unterminated", "'un", "`un", "\"a\nb\"", "\"\\", "\"\\q\"",
 	"!", "!=", "=", "==", "= <-", "=  <-", "= <", "?", "??", "+", "++", "+=", "-", "--", "-=", "*", "*=", "/", "/=", "//c", "// c\n", "/*c*/", "/* c", "/**/", "/***/", "/* * / */", "/*/", "#c", "# c\n",
 	">", ">=", ">>", "<", "<-", "<=", "<<", "|", "||", "|=", "&", "&&", "&=", ".", "..", "...", "....",
@@ -211,6 +211,15 @@ func streamLex(o *Out, r *rand.Rand, n int, thorough bool) {
 			it = item{"bytes", string(b)}
 		}
 		items = append(items, it)
+	}
+	// numeric literal directly against an operator or another fragment, no blank: where a literal ends must depend
+	// on the literal's base only (a hex digit e is not an exponent marker, a binary literal ends at the first non-binary digit)
+	for _, l := range []string{"0xe", "0xfe", "0x1e", "0xE", "0x1F", "0XAE", "0b1", "0b10", "7", "10", "1e3", "1E3", "1.5", "1.5e2", "1e", "0xg", "0x", "1.", "0e", "0b1e"} {
+		for _, op := range []string{"+", "-", "*", "/", "%", "+-", "-+", "--", "++", "<", "=", ".", " -", " +", "e", "E", "e-", "e+", "x", "b", "_", "p", "p-"} {
+			for _, r2 := range []string{"1", "0x1", "e", "2e1", "0b1"} {
+				items = append(items, item{"tight", "a = " + l + op + r2})
+			}
+		}
 	}
 	dumps := make([]string, len(items))
 	for i, it := range items {
